@@ -334,8 +334,8 @@ def _skeleton_of_log(log):
             skel.append(("Gather", int(attrs.get("axis", 0)), np.asarray(ins[1]).tolist(), tuple(np.asarray(ins[1]).shape)))
         elif name == "Identity":
             skel.append(("Identity",))
-        elif name in ("Add", "Greater"):
-            continue                      # s + 1 of a scalar index; step > 0 of a tensor-valued step
+        elif name in ("Add", "Greater", "Less"):
+            continue                      # s + 1 of a scalar index; step > 0 of a tensor-valued step; start < -dim (tensor-valued start)
         else:
             skel.append((name,))
     return skel
